@@ -125,6 +125,8 @@ type PKI struct {
 // (the wire-corruption scenarios are applied by the transport filter of the harness).
 var pkiServerScen = map[string]bool{"": true, "Trusted": true, "UntrustedRoot": true, "Expired": true, "NotYetValid": true,
 	"WrongName": true, "WrongKey": true, "BadLeafSig": true,
+	"NameIP4Listed": true, "NameIP4Unlisted": true, "NameIP6BracketListed": true, "NameIP6BracketUnlisted": true,
+	"NameIP6ZoneListed": true, "NameDNSTrailingDot": true,
 	"CorruptSKXSig": true, "CorruptSKXParams": true, "CorruptServerFinished": true, "CorruptClientFinished": true, "CorruptClientCV": true}
 
 // BuildPKI concretises the certificates and keys of a case.
@@ -139,7 +141,7 @@ func BuildPKI(cs Case) (*PKI, error) {
 	}
 	leafKey := kt + "_srv"
 	leaf := pki.Cert{ID: "leaf-" + kt, Subj: "Srv", Key: leafKey, Iss: "IntA", SKey: "K_intA", NB: leafNB, NA: leafNA,
-		DNS: []string{ServerName}, EKU: []string{"server"}, AKID: "K_intA",
+		DNS: []string{ServerName}, IPs: []string{"192.0.2.7", "2001:db8::7", "fe80::7"}, EKU: []string{"server"}, AKID: "K_intA",
 		KU: int(stdx509.KeyUsageDigitalSignature | stdx509.KeyUsageKeyEncipherment)}
 	chainInter := interCert("A")
 	p.ServerKey = PrivKey(leafKey)
@@ -153,6 +155,20 @@ func BuildPKI(cs Case) (*PKI, error) {
 		p.Time = TTooEarly
 	case "WrongName":
 		p.ClientName = "other.example"
+	// server-name classes: the configured name is an IP literal (never sent as SNI), listed or not
+	// among the certificate's IP SANs, bracketed, or carrying a zone
+	case "NameIP4Listed":
+		p.ClientName = "192.0.2.7"
+	case "NameIP4Unlisted":
+		p.ClientName = "192.0.2.9"
+	case "NameIP6BracketListed":
+		p.ClientName = "[2001:db8::7]"
+	case "NameIP6BracketUnlisted":
+		p.ClientName = "[2001:db8::9]"
+	case "NameIP6ZoneListed":
+		p.ClientName = "fe80::7%eth0"
+	case "NameDNSTrailingDot":
+		p.ClientName = ServerName + "."
 	case "WrongKey":
 		p.ServerKey = PrivKey(kt + "_srv2")
 	case "BadLeafSig":
